@@ -33,7 +33,7 @@ def gen(rng, strategy, signal_case=False):
     horizon_steps = int(rng.choice([10, 14, 20]) * 60 / interval)
     n = horizon_steps
     nveh = rng.choice([1, 1, 2, 3, 4]) if not signal_case else rng.choice([1, 1, 2, 3])
-    tight = (not signal_case) and rng.random() < 0.35       # single vehicle, connector head room binding at times
+    tight = rng.random() < (0.35 if not signal_case else 0.3)       # single vehicle, connector head room binding at times
     # directed: everything encouraged lies late, where the head room is small (rising fixed load / lowered limit)
     directed = (not signal_case) and strategy in ("balanced_market", "peak_load_window", "flex_window") and rng.random() < 0.3
     if directed:
@@ -102,6 +102,15 @@ def gen(rng, strategy, signal_case=False):
                 ev["grid_operator_signals"].append({"signal_time": iso(start), "start_time": iso(start + dt * i),
                                                     "grid_connector_id": "GC1", "window": pat[i]})
                 last = pat[i]
+        # signals that carry no window information (price only / limit only at the rating) must leave the windows alone
+        for _ in range(rng.choice([0, 1, 2, 4])):
+            i = rng.randrange(1, n)
+            sig = {"signal_time": iso(start), "start_time": iso(start + dt * i), "grid_connector_id": "GC1"}
+            if rng.random() < 0.5:
+                sig["cost"] = {"type": "fixed", "value": rng.choice([0.2, 0.4])}
+            else:
+                sig["max_power"] = "RATING"
+            ev["grid_operator_signals"].append(sig)
     elif strategy == "peak_load_window":
         # peak-load windows = discouraged periods, given as times of day (the horizon is < 24 h)
         wins = []
@@ -145,6 +154,10 @@ def gen(rng, strategy, signal_case=False):
         arr_step = rng.choice([0, 0, rng.randrange(0, max(1, n // 3))])
         margin = rng.choice([1.0, 1.0, 1.3, 2.0, 3.0]) if not directed else rng.choice([1.3, 2.0])
         comp["vehicles"][vid] = {"vehicle_type": "vt", "soc": soc0, "desired_soc": desired, "_arr": arr_step, "_margin": margin, "_cs": cs}
+    for sig in ev["grid_operator_signals"]:
+        if sig.get("max_power") == "RATING":
+            sig["max_power"] = comp["grid_connectors"]["GC1"]["max_power"]
+    ev["grid_operator_signals"].sort(key=lambda e: e["start_time"])
     return {"js": {"scenario": {"start_time": iso(start), "interval": interval, "n_intervals": n + 2}, "components": comp, "events": ev},
             "pattern": pat, "strategy": strategy, "extra": extra, "signal_case": signal_case,
             "dep_offset": rng.choice([0, 0, 0, -3, 4]), "seed": rng.randrange(10**6),
